@@ -64,19 +64,21 @@ Section SshGate.
      user from the authorised key's entry if any, ClientSpec as set by TunnelServer.Run *)
   Definition sg_login (k : sg_keys) (perm : option bytes) (cmd_token cmd_user : bytes) (ts pool : Z) : au_login :=
     {| al_rid := []; al_key := au_key H cmd_token ts; al_ts := ts;
-       al_user := match perm with Some (_ :: _ as u) => u | _ => cmd_user end;
+       al_user := match perm with Some ((_ :: _) as u) => u | _ => cmd_user end;
        al_pool := pool;
        al_spec := {| asp_type := hx "7373682d74756e6e656c" (* "ssh-tunnel" *); asp_always_pass := sg_always_pass k |} |}.
 
   Inductive sg_out := SgRefusedAtSsh | SgForwarded (o : au_out).
 
   (* one ssh connection to the gateway that gets as far as starting its virtual client *)
+  (* lplug: outcome of the Login plugin chain for this login — handleConnection consults it for logins arriving on the
+     internal listener exactly as for network logins, always-pass flag or not *)
   Definition sg_step (k : sg_keys) (s : au_state) (conn now : Z) (gen : bytes) (attempts : list sg_attempt)
-    (cmd_token cmd_user : bytes) (ts pool : Z) : au_state * sg_out :=
+    (cmd_token cmd_user : bytes) (ts pool : Z) (lplug : au_lplug) : au_state * sg_out :=
     match sg_auth k attempts with
     | None => (s, SgRefusedAtSsh)
     | Some perm =>
-        let '(s', o) := au_step H oidc c s (AuEFirst true conn now gen (AuFLogin (sg_login k perm cmd_token cmd_user ts pool))) in
+        let '(s', o) := au_step H oidc c s (AuEFirst true conn now gen (AuFLogin (sg_login k perm cmd_token cmd_user ts pool) lplug)) in
         (s', SgForwarded o)
     end.
 
